@@ -142,6 +142,9 @@ func (g *Gen) genHistory(k cfgKey, maxLen int, wild bool) string {
 			if g.r.Chance(1, 12) {
 				f = 0
 			}
+			if k.name == "ISM2400" && !wild {
+				f = 2400000000 + uint32(g.r.Intn(418))*200000
+			}
 			if wild && g.r.Chance(1, 8) {
 				f = g.r.U32()
 			}
@@ -258,6 +261,26 @@ func genC14(g *Gen) {
 		cnt := channelCount(k, hist)
 		en := enabledOf(k, hist)
 		g.addf("bq %s %s planapply %s", k, hist, g.genDevSet(cnt, en))
+	}
+	// apply with arbitrary payloads (any ChMaskCntl, any mask), as a device receiving commands from elsewhere would
+	for i := 0; i < g.scale(1500, 40000); i++ {
+		k := keys[g.r.Intn(len(keys))]
+		hist := g.genHistory(k, 6, false)
+		cnt := channelCount(k, hist)
+		np := 1 + g.r.Intn(4)
+		var pls []string
+		for j := 0; j < np; j++ {
+			cntl := g.r.Intn(8)
+			if g.r.Chance(1, 10) {
+				cntl = g.r.Intn(256)
+			}
+			mask := int(g.r.U16())
+			if g.r.Chance(1, 3) {
+				mask &= 0xff
+			}
+			pls = append(pls, fmt.Sprintf("%d:%d:0:0:0", cntl, mask))
+		}
+		g.addf("bq %s %s apply %s %s", k, hist, g.genDevSet(cnt, nil), strings.Join(pls, ","))
 	}
 	// sub-band patterns on the 72 / 96 channel plans: disable everything but one sub-band
 	for _, name := range []string{"US915", "AU915", "CN470"} {
